@@ -184,7 +184,9 @@ def meta_doc(name=b"t", piece_length=4, files=None, length=None, nhashes=None, e
     root = [(b"info", D(*info))] + list(extra_root)
     return D(*root)
 
-WORDS = [b"a", b"b", b"file", b"x.bin", b"dir", b"sub", b"\xc3\xa9t\xc3\xa9", b"a b", b"data.01", b"\xe6\x97\xa5\xe6\x9c\xac", b".pad", b"0", b"12", b"..x", b"x..", b"..."]
+# (U+FFFD, U+FFFE/U+FFFF, U+0000-free controls and the last code point are ordinary characters of a valid UTF-8 string)
+WORDS = [b"a", b"b", b"file", b"x.bin", b"dir", b"sub", b"\xc3\xa9t\xc3\xa9", b"a b", b"data.01", b"\xe6\x97\xa5\xe6\x9c\xac", b".pad", b"0", b"12", b"..x", b"x..", b"...",
+         b"caf\xef\xbf\xbd", b"\xef\xbf\xbd", b"\xef\xbf\xbe", b"\xf4\x8f\xbf\xbf", b"\x7f", b"\x01x"]
 BAD_COMPONENTS = [b"", b".", b"..", b"a/b", b"/abs", b"/", b"../x", b"x/..", b"a/", b"\xff\xfe", b"\xc0\xaf", b"\xed\xa0\x80", b"\xf4\x90\x80\x80", b"\xe2\x82"]
 U64 = 2**64
 
@@ -192,7 +194,7 @@ def long_name(rng, plain=True):
     """names whose byte length sits around 64 / 128 / 255 / 256 / 1024 with multi-byte characters placed so that they
     straddle those offsets (fixed-size buffers and byte-offset slicing are classic places to break)"""
     target = rng.choice([63, 64, 65, 66, 127, 128, 129, 254, 255, 256, 257, 1023, 1025]) + rng.range(-1, 2)
-    units = [b"a", b"\xc3\xa9", b"\xe6\x97\xa5", b"\xf0\x9f\x98\x80", b"b", b"\xc3\xb1"]
+    units = [b"a", b"\xc3\xa9", b"\xe6\x97\xa5", b"\xf0\x9f\x98\x80", b"b", b"\xc3\xb1", b"\xef\xbf\xbd"]
     out = b""
     first = rng.choice(units)
     out += first
